@@ -55,6 +55,11 @@ def _three(sx, op, same):
             sx.cover("downgraded")
     if l[0] == "err":
         sx.require(s[0] == "err", "lenient-raises-only-where-strict-raises")
+    if l[0] == "foreign":
+        # a problem that strict mode reports as the library's error must be downgraded (or stay
+        # a library error) in lenient mode, not turn into a foreign exception
+        sx.observe("lenient-foreign", l[1])
+        sx.fail("lenient-mode-downgrades-library-errors")
     sx.require(s2[0] == s[0], "re-enabling-strict-restores-the-outcome")
     if s[0] == "ok" and s2[0] == "ok":
         sx.require(same(s[1], s2[1]), "re-enabling-strict-restores-the-result")
@@ -87,12 +92,60 @@ def run_dec(sx, cfg, env):
     _three(sx, lambda: rq.decode(msg), _same_val)
 
 
+def build_layer(cfg):
+    from harness import c06
+    return c06.build_layer(cfg)
+
+
+def _cname(m):
+    return "<none>" if m.coding_object is None else m.coding_object.short_name
+
+
+def _msgset(res):
+    return sorted((m.service.short_name, _cname(m)) for m in res)
+
+
+def _same_msgs(a, b):
+    if _msgset(a) != _msgset(b):
+        return False
+    conds = []
+    for x in a:
+        for y in b:
+            if (x.service.short_name, _cname(x)) == (y.service.short_name, _cname(y)):
+                for k, v in x.param_dict.items():
+                    conds.append(y.param_dict.get(k) == v)
+    return s_and(*conds) if conds else True
+
+
+def run_layer(sx, cfg, env):
+    """DiagLayer.decode of every message in strict / lenient / strict-again mode: where strict
+    mode reports interpretations, lenient mode reports exactly the same ones"""
+    import warnings
+    layer = env["layer"]
+    msg = sx.bytes("msg", cfg["mlen"])
+    if cfg.get("first") is not None:
+        sx.assume(msg[0] == cfg["first"])
+        if cfg.get("second_hi") is not None:
+            sx.assume(msg[1] >> 4 == cfg["second_hi"])
+    else:
+        sx.assume(s_and(*[msg[0] != b for b in cfg["not_first"]]))
+
+    def op():
+        with warnings.catch_warnings():
+            warnings.simplefilter("ignore")
+            return layer.decode(msg)
+
+    _three(sx, op, _same_msgs)
+
+
 LIM = {"quick": explore.Limits(max_paths=4000, wall_s=200), "thorough": explore.Limits(max_paths=40000, wall_s=900)}
 HARNESSES = {
     "enc": {"build": cc.build_atom, "run": run_enc, "width": 80, "limits": LIM,
             "must_cover": ["strict-ok", "strict-error", "downgraded"]},
     "dec": {"build": cc.build_atom, "run": run_dec, "width": 80, "limits": LIM,
             "must_cover": ["strict-ok", "strict-error", "downgraded"]},
+    "layer": {"build": build_layer, "run": run_layer, "width": 80, "limits": LIM,
+              "must_cover": ["strict-ok", "strict-error"]},
 }
 STUBS = cc.STUBS + ["odxtools.exceptions.strict_mode is flipped by the harness itself (that is the "
                     "operation under test)", "logging of downgraded problems is silenced"]
@@ -122,6 +175,18 @@ def configs(tier, seed):
             c.update(harness="dec", id=f"dec/{cc.atom_id(b)}/len{n}", build=b, mlen=n,
                      tail=b.get("tail", True))
             out.append(c)
+    for layer in ("negative-responses", "global-negative"):
+        firsts = [0x10, 0x11, 0x50, 0x7F]
+        for n in (3,):
+            base = {"harness": "layer", "layer": layer, "mlen": n, "build": {"layer": layer}}
+            for fb in firsts:
+                if fb == 0x7F:
+                    for hi in range(16):
+                        out.append(dict(base, id=f"layer/{layer}/len{n}/b{fb:02x}/{hi:x}x", first=fb,
+                                        second_hi=hi))
+                else:
+                    out.append(dict(base, id=f"layer/{layer}/len{n}/b{fb:02x}", first=fb))
+            out.append(dict(base, id=f"layer/{layer}/len{n}/other", not_first=firsts))
     return out
 
 
